@@ -35,7 +35,7 @@ PLAN = {
                 "the offline oracle applies the interval rules E1-E7 (DESIGN §3 C05) to the merged history plus a final quiescent clear. "
                 "gate leg: each of 11 hook windows x 4 intruding ops x 11 prefills forced deterministically; random leg: seeded holds at "
                 "all 17 bucket hook points. distinct = distinct (interleaving signature over hook events, history stamps); non-trivial = "
-                "contains a clear or snapshot concurrent with pushes.",
+                "contains a clear or snapshot concurrent with pushes. Three-party gated schedules (a reader / clear / is_empty poll between a pusher that claimed a slot and stalled and a pusher that completed the next slot) run for every prefill. memcheck legs run the small concurrent executions under valgrind (uninitialised-value use, invalid frees).",
         "assumptions": ["call/return stamps come from one SeqCst counter, so 'completed before' is sound w.r.t. real time",
                         "crossbeam-epoch is trusted (it is a dependency, not repository code); Miri runs it under tree borrows"],
         "legs": [
@@ -93,7 +93,7 @@ PLAN = {
                 "starts, absolutes mixed with increments, absolutes with concurrent monotonicity readers), gauge runs with exactly "
                 "representable inc/dec, short gauge histories (2-4 threads x 2-4 ops, unique set values) checked for linearizability "
                 "(Wing-Gong), histogram record/record_many through logging HistogramFn doubles (default and overriding record_many) over "
-                "every IntoF64 type, extreme values and no-op handles. case = one run/history; distinct = hash of its parameters and outcome.",
+                "every IntoF64 type, extreme values and no-op handles. case = one run/history; distinct = hash of its parameters and outcome. set() exactness is judged bit for bit over the full matrix previous value x new value of the special floats (signed zeroes, NaN payloads, infinities, denormal, extremes).",
         "assumptions": ["gauge arithmetic judged only on exactly representable values", "linearizability search budget 200k states per history; overrun = inconclusive"],
         "legs": [
             {"name": "native", "flavour": "native", "shards": 4, "shards_thorough": 16},
@@ -110,7 +110,7 @@ PLAN = {
                 "a quarter of the trials each: winner held after the CAS / after the pointer write / a loader held after seeing "
                 "INITIALIZED (gates), random holds, no holds. Oracle: write-once-register rules on the stamped history + canary + "
                 "drop accounting. global leg: one process per trial of the real set_global_recorder raced with macro emissions. "
-                "case = one trial; distinct = (hook interleaving signature, history) hash; non-trivial = >= 3 racing threads.",
+                "case = one trial; distinct = (hook interleaving signature, history) hash; non-trivial = >= 3 racing threads. A fifth of the install attempts run from a destructor while their thread unwinds from an unrelated (caught) panic.",
         "assumptions": ["'seen whole' is judged through a 6-word canary written by the double's constructor", "Relaxed/Acquire mistakes that x86 hides are only observable in the Miri leg"],
         "legs": [
             {"name": "cells", "flavour": "native", "shards": 4, "shards_thorough": 16},
@@ -128,7 +128,7 @@ PLAN = {
                 "recoverer (into_inner, or drop(handle) in a third of the trials); a third of the trials gate an emitter right after its "
                 "weak->strong upgrade until the recoverer has spun, a third use random holds. install leg: process-per-trial of the real "
                 "install(), success path with macro emitters and already-installed failure path. case = trial; distinct = (hook "
-                "interleaving signature, recovery stamps) hash.",
+                "interleaving signature, recovery stamps) hash. Emissions run under catch_unwind (a panic in the wrapper is a violation); one gated trial in a hundred holds an emission until into_inner has failed 64 times.",
         "assumptions": ["finalisation begins when into_inner returns or when Drop starts", "emissions overlapping the recovery may go either way",
                         "bounded progress: install() on the failure path with no emission in flight must return within the 20 s watchdog"],
         "legs": [
@@ -147,7 +147,7 @@ PLAN = {
                 "empty/default) for each of 30 constructor shapes (borrowed / owned with len,cap in {0,1,2,7,8,33}x{=,>} / shared) over "
                 "Cow<[Elem]> (drop-counting elements) and Cow<str> (complete for that scope); random leg: 1-4 values, 1-25 ops. After "
                 "every op: content vs model, Arc::strong_count vs model, live-element count vs model. asan/miri legs run the same sequences "
-                "with LeakSanitizer / Miri's borrow tracker and leak checker. distinct = sequence hash.",
+                "with LeakSanitizer / Miri's borrow tracker and leak checker. distinct = sequence hash. Borrowed values are prefixes of one shared buffer (same start address, different lengths). memcheck leg: random sequences under valgrind.",
         "assumptions": ["the harness keeps one clone of every Arc so counts are observable", "raw buffer leaks are only visible to LSan/Miri, not to the native leg"],
         "legs": [
             {"name": "sweep", "flavour": "native", "shards": 4, "shards_thorough": 8},
@@ -168,7 +168,7 @@ PLAN = {
                 "resizes) against a reference map, with storage doubles that carry a unique id, their kind and their key; run with 16, 4 "
                 "and 1 registry shards (CPU affinity). race legs: 2-5 threads x 1-3 ops on 1-3 keys x 3 kinds, a third with a creator "
                 "gated between dropping the read lock and taking the write lock, a third with random holds; each (kind,key) sub-history "
-                "is checked for linearizability against a single-entry map (P-compositionality). case = history; distinct = history hash.",
+                "is checked for linearizability against a single-entry map (P-compositionality). case = history; distinct = history hash. race leg also parks an operation inside its get_or_create closure (holding the shard lock) while clear() / retain(false) runs: untouched keys must be gone afterwards. clone-race leg: 400k spin-synchronised rounds in which one thread looks a fresh lazily hashed static key up and another looks up a clone taken at that moment; both must get one storage.",
         "assumptions": ["keys use pairwise distinct label names (or two labels sharing a name), where equality is label-order-insensitive", "linearizability search budget 300k states"],
         "legs": [
             {"name": "seq", "flavour": "native", "shards": 3, "shards_thorough": 12},
@@ -180,6 +180,7 @@ PLAN = {
             {"name": "miri", "flavour": "miri", "shards": 6, "shards_thorough": 48, "miriflags": IGN, "timeout": 1500},
             {"name": "clone-race", "flavour": "native", "shards": 2, "shards_thorough": 8, "scale_thorough": 1.0},
             {"name": "memcheck", "leg": "tsan", "flavour": "memcheck", "shards": 4, "shards_thorough": 8, "scale": 0.1, "timeout": 1800, "thorough_only": True},
+            {"name": "collide", "flavour": "native", "shards": 2, "shards_thorough": 8},
         ],
     },
     "C16": {
@@ -191,7 +192,7 @@ PLAN = {
                 "independent trials, per-position retention count vs Binomial(T, k/n), fixed |z| > 6.5 threshold. overlap leg: 1-4 "
                 "pushers vs 2-7 drains with capacity >= everything pushed; a third of the trials gate a pusher between choosing its side "
                 "and claiming a slot until a drain completed; every value must be yielded exactly once by a drain overlapping its push or "
-                "the first drain after it. distinct = hash of cycle shapes / (hook interleaving signature, drain sizes).",
+                "the first drain after it. distinct = hash of cycle shapes / (hook interleaving signature, drain sizes). consumers leg: a second consumer calls consume() 1-3 times while the first is still inside its closure (no push running): every value pushed before is yielded exactly once.",
         "assumptions": ["uniformity is a statistical verdict: false-alarm probability < 1e-9 per run (Bonferroni over <= 150 positions)",
                         "the reservoir's own PRNG is OS-seeded and not controlled by VERIF_SEED"],
         "legs": [
@@ -246,7 +247,7 @@ PLAN = {
                 "NaN/inf/-0/denormals, 1-70 histogram samples) / describe (every Unit) / run_upkeep / render steps; every render is "
                 "parsed by the strict parser and compared with the model (values, buckets, labels, HELP, type, no extra family, "
                 "idempotence). concurrent legs: 2-7 recorder threads vs 1-2 render/upkeep threads, interval bounds per render + exact "
-                "equality at quiescence; one leg adds random holds at the bucket hook points. distinct = case hash.",
+                "equality at quiescence; one leg adds random holds at the bucket hook points. distinct = case hash. absolute-race leg: two threads call absolute(2r) and absolute(2r-1) in spin-synchronised round r; the render after both returned must show 2r.",
         "assumptions": ["label values / descriptions containing backslashes are not required to round-trip (escaper treats them as possibly pre-escaped); judged only by C08",
                         "histogram sums judged on dyadic samples (exact)"],
         "legs": [
@@ -300,7 +301,7 @@ PLAN = {
                 "decoded flush outputs: conservation (sum of deltas == increments; absolute: last - first), no delta beyond what was "
                 "invoked, zero-exactly-once, gauge recency interval, histogram values exactly once and never late, timestamp presence "
                 "per documented mode, types. socket leg: built exporter (20 ms flush) against harness unix-stream / unixgram / UDP "
-                "sockets for >= 8 cycles. distinct = (hook interleaving signature, delta sequence) hash.",
+                "sockets for >= 8 cycles. distinct = (hook interleaving signature, delta sequence) hash. A third of the flush-leg trials use a 56-byte payload limit so that one flush's histogram values span several payloads (each must be the configured message type).",
         "assumptions": ["UDP loopback may drop datagrams: on UDP only 'never more than recorded' and framing are judged",
                         "socket leg completion is logical (received sum reaches the recorded total) under a 15 s watchdog whose expiry is inconclusive"],
         "legs": [
@@ -320,7 +321,7 @@ PLAN = {
                 "values since the previous snapshot, latest description, unit kept when a later description has none), beside a second "
                 "unrelated recorder. concurrent legs: 2-5 recorder threads vs a snapshot thread; every histogram value in exactly one "
                 "snapshot and never in a later one than the first snapshot begun after it was recorded; counter interval rule; one leg "
-                "with random holds at the bucket hook points. distinct = history hash.",
+                "with random holds at the bucket hook points. distinct = history hash. Keys include two labels sharing a name listed in either order. seq leg also runs programs of set_default_local_recorder installs over three debugging recorders with guards dropped in any order: each snapshot lists exactly what was emitted while that recorder was the innermost live installation.",
         "assumptions": ["histogram values compared as multisets per snapshot"],
         "legs": [
             {"name": "seq", "flavour": "native", "shards": 4, "shards_thorough": 16},
